@@ -153,6 +153,9 @@ func (c *Conn) getRedo() [][]byte {
 	// so instead let's leverage a select. as soon as it blocks (due to chan close or no more input but not closed yet) we know we're
 	// done reading and move on. it's easy to prove in the implementer that we don't send any more data to In after calling this
 	defer c.clearRedo()
+	// HandleData may have taken a line out of In that it has not added to keepSafe yet.
+	// the conn is dead, so it (and checkEOF) are on their way out: only collect once they are gone
+	c.wg.Wait()
 	for {
 		select {
 		case buf := <-c.In:
